@@ -248,7 +248,12 @@ IO_RESULT_APIS = set(T.FS_CREATE_TRUNC) | set(T.FS_REMOVE) | set(T.FS_READ_BYTES
     "std::io::Read::read_exact", "<std::fs::ReadDir as std::iter::Iterator>::next", "<std::io::Lines<B> as std::iter::Iterator>::next",
 }
 TRY = "<std::result::Result<T, E> as std::ops::Try>::branch"
+# `opt?` on None returns None: the residual carries no payload (and no error)
+OPT_RESIDUAL = "<std::option::Option<T> as std::ops::FromResidual<std::option::Option<std::convert::Infallible>>>::from_residual"
 R042_NEUTRAL = (FORWARD_NEUTRAL - {TRY}) | {
+    # wrapping the error payload keeps it (the report is then returned or handled like the Result itself)
+    "error_stack::Report::<C>::new", "error_stack::Report::<C>::change_context", "error_stack::Report::<C>::attach_printable",
+    "error_stack::Report::<C>::attach_printable_lazy", "error_stack::Report::<C>::attach", "<error_stack::Report<C> as std::convert::From<C>>::from",
     "std::result::Result::<T, E>::map", "std::result::Result::<T, E>::and_then", "std::option::Option::<T>::map",
     "<std::option::Option<T> as std::ops::Try>::branch",
 }
@@ -277,7 +282,7 @@ def r04_2(ctx):
             uses = forward_uses_ext(b, t["dest"]["l"])
             sinks = [u for u in uses if u not in R042_NEUTRAL]
             reaches = any(u in (TRY, "RETURN", "CLOSURE-RETURN") for u in uses)
-            bad = [u for u in sinks if u not in ("RETURN", "CLOSURE-RETURN", "MATCH", TRY) and u not in BYREF_PROBES]
+            bad = [u for u in sinks if u not in ("RETURN", "CLOSURE-RETURN", "MATCH", TRY, OPT_RESIDUAL) and u not in BYREF_PROBES]
             tolerated = any(re.search(fp, b.name) and re.search(op, nm) for (fp, op, r, g) in TOLERATED)
             if bad and not tolerated:
                 ctx.violation([b.name, nm, ",".join(sorted(set(bad)))], "the Result of %s flows into %s instead of `?`/the return value" % (
@@ -286,6 +291,13 @@ def r04_2(ctx):
                 ctx.ok("%s|%s|%s" % (nm, b.name, "propagated" if reaches else "matched"), site=site)
             else:
                 ctx.violation([b.name, nm, "lost"], "the Result of %s reaches neither `?` nor the return value" % nm, site=site)
+
+
+def _success_payload(pl):
+    """the place selects the success payload of a Result/Option (`(r as Ok).0`): the value was discriminated, what flows on from
+    here is no longer the fallible result"""
+    return any(e["k"] == "field" and e.get("owner") in ("std::result::Result", "std::option::Option", "std::ops::ControlFlow")
+               and e.get("variant") in ("Ok", "Some", "Continue") for e in pl["p"])
 
 
 def forward_uses_ext(b, local):
@@ -316,12 +328,12 @@ def forward_uses_ext(b, local):
             elif rv["k"] == "aggregate":
                 for op in rv["ops"]:
                     p = C.op_place(op)
-                    if p and p["l"] == l:
+                    if p and p["l"] == l and not _success_payload(p):
                         work.append(st["lhs"]["l"])
-            if src and src["l"] == l:
+            if src and src["l"] == l and not _success_payload(src):
                 work.append(st["lhs"]["l"])
         for bb, t in b.calls():
-            if any((C.op_place(a) or {}).get("l") == l for a in t["args"]):
+            if any((C.op_place(a) or {}).get("l") == l and not _success_payload(C.op_place(a)) for a in t["args"]):
                 nm = C.callee_name(t)
                 out.append(nm)
                 if nm in R042_NEUTRAL:
@@ -400,7 +412,9 @@ def r04_4(ctx):
             err_e = {eid for eid, succ, vs in C.edge_variants(ri, sbb, c, ctx.lib) if vs == {"Err"}}
             if not err_e:
                 continue
-            reached = C.after_edges(ri, err_e, cut=out_edges(ri, errs))
+            reached = C.region(ri, err_e, cut=out_edges(ri, errs))
+            if not reached:
+                continue      # the Err edge is infeasible here (a re-test after the error was already handled)
             # drop elaboration re-tests the discriminant at the end of the scope to drop what was not moved out: such a switch is
             # followed only by drops / gotos / drop-flag updates (no call, no real assignment) until the loop head or the return
             stop = C.after_edges(ri, err_e, cut=out_edges(ri, heads | {x for x in reached if ri.term(x)["k"] == "return"}))
